@@ -507,7 +507,21 @@ func Check(c Case) (v vcase.Verdict) {
 			allDistinct = false
 		}
 	}
-	if allDistinct {
+	// a key that is file configuration in one result and tool-supplied in another is
+	// extracted alike by a specific projection but belongs to the file configuration only
+	// in the former; the "nothing lost" equivalence is stated for file configuration
+	overridden := false
+	for _, r := range c.Stream {
+		for _, cf := range r.Cfg {
+			if !cf.File && !strings.HasPrefix(cf.K, ".") {
+				overridden = true
+			}
+		}
+	}
+	if overridden {
+		v.Label("file_key_overridden_by_tool")
+	}
+	if allDistinct && !overridden {
 		for i := range c.Stream {
 			for j := i + 1; j < len(c.Stream); j++ {
 				agree := A.rkeys[i] == A.rkeys[j]
@@ -570,18 +584,18 @@ func Check(c Case) (v vcase.Verdict) {
 
 var specificKeys = []string{".name", "/size", "/kind", "/gomaxprocs", "goos", "pkg", "commit", "note", ".file"}
 var fileKeyPool = []string{"goos", "pkg", "commit", "note", "cpu", "extra"}
-var valPool = []string{"linux", "darwin", "1", "2", "abc", "x y", "é"}
+var valPool = []string{"linux", "darwin", "1", "2", "abc", "x y", "é", "12", "21", "1", "2", "ab", "c"}
 
 func genName(t *rapid.T, arbitrary bool) string {
 	if arbitrary && vcase.OneIn(t, 6, "arbname") {
 		return rapid.SampledFrom([]string{"A/size=1/size=2", "A/gomaxprocs=2-4", "A//", "A/=x", "A/size=", "-4", "A/size=1/x/size=3-2", "/kind=a", ""}).Draw(t, "weird")
 	}
-	n := rapid.SampledFrom([]string{"Foo", "Bar", "Baz/pos"}).Draw(t, "base")
+	n := rapid.SampledFrom([]string{"Foo", "Bar", "Baz/pos", "Merge-Sort", "Baz/type=big-endian", "X-1/pos"}).Draw(t, "base")
 	if rapid.Bool().Draw(t, "hs") {
-		n += "/size=" + rapid.SampledFrom([]string{"1", "2", "4k", ""}).Draw(t, "size")
+		n += "/size=" + rapid.SampledFrom([]string{"1", "2", "4k", "", "12", "21", "big-endian"}).Draw(t, "size")
 	}
 	if rapid.Bool().Draw(t, "hk") {
-		n += "/kind=" + rapid.SampledFrom([]string{"a", "b"}).Draw(t, "kind")
+		n += "/kind=" + rapid.SampledFrom([]string{"a", "b", "1", "2", "12"}).Draw(t, "kind")
 	}
 	if vcase.OneIn(t, 3, "lookalike") {
 		// parts whose key merely starts with a projected key, and positional parts that look like one
@@ -679,6 +693,13 @@ func Gen(t *rapid.T) Case {
 				seen[k] = true
 				r.Cfg = append(r.Cfg, cf)
 			}
+		}
+		if vcase.OneIn(t, 10, "override") && len(r.Cfg) > 0 {
+			// tooling overrides a key that the file had set (Result.SetConfig marks it internal):
+			// it is then not file configuration any more
+			i := rapid.IntRange(0, len(r.Cfg)-1).Draw(t, "ovidx")
+			r.Cfg[i].File = false
+			r.Cfg[i].V = rapid.SampledFrom(valPool).Draw(t, "ovval")
 		}
 		if rapid.Bool().Draw(t, "dotfile") {
 			r.Cfg = append(r.Cfg, Cfg{K: ".file", V: rapid.SampledFrom([]string{"old.txt", "new.txt"}).Draw(t, "file"), File: false})
